@@ -20,6 +20,9 @@ Milestones(k) == CASE k = "join765" -> <<"ready", "finish", "join">>
                    \* 1.20.1 client whose pre-join queue is in use ("hold": its connection phase is
                    \* not complete, as during a legacy Forge handshake): the queue is drained to the
                    \* backend that sends the next JoinGame
+                   \* the first backend becomes ready and is then lost during the configuration phase;
+                   \* the player falls back to the next server of the try list, which becomes ready later
+                   [] k = "fallback765" -> <<"ready", "kick", "ready", "finish", "join">>
                    [] k = "playq763" -> <<"hold", "switch", "ready", "join", "unhold">>
 
 VARIABLES kind, ms,      \* history kind, milestones passed
@@ -35,9 +38,12 @@ mvars == <<kind, ms, sent, q, qbytes, ready, toBackend, overflowed, h>>
 \* the client may send custom payloads once it left the login state; in a switch history
 \* only the messages of the new backend's configuration phase are looked at
 CanSend == IF kind = "switch765" THEN ms >= 3
-           ELSE IF kind = "playq763" THEN ms = 1 \/ ms = 5 ELSE TRUE
+           ELSE IF kind = "playq763" THEN ms = 1 \/ ms = 5
+           ELSE IF kind = "fallback765" THEN ms >= 2      \* only what is meant for the fallback backend
+           ELSE TRUE
 ReadyAt == CASE kind \in {"join765", "join763"} -> 1
              [] kind = "playq763" -> 4
+             [] kind = "fallback765" -> 3
              [] OTHER -> 2
 
 MInit == /\ kind \in Kinds /\ ms = 0 /\ sent = <<>> /\ q = <<>> /\ qbytes = 0
